@@ -221,7 +221,23 @@ func exampleFiles(repo string) []string {
 		return nil
 	})
 	sort.Strings(res)
+	// rich synthetic documents (c14rich.go), when the driver prepared them
+	if dir := os.Getenv("C14_EXTRA_DIR"); dir != "" {
+		extra, _ := filepath.Glob(filepath.Join(dir, "rich-*.json"))
+		sort.Strings(extra)
+		for _, f := range extra {
+			res = append(res, "rich:"+filepath.Base(f))
+		}
+	}
 	return res
+}
+
+// c14ReadExample reads an entry of exampleFiles.
+func c14ReadExample(repo, rel string) ([]byte, error) {
+	if strings.HasPrefix(rel, "rich:") {
+		return os.ReadFile(filepath.Join(os.Getenv("C14_EXTRA_DIR"), rel[5:]))
+	}
+	return os.ReadFile(filepath.Join(repo, rel))
 }
 
 // enumerate calls emit for the unmutated document and then every single-member mutation.
@@ -636,6 +652,18 @@ func c14work(args []string) int {
 	if len(args) > 8 {
 		skip, _ = strconv.Atoi(args[8])
 	}
+	richStride := 1
+	if v := os.Getenv("C14_RICH_STRIDE"); v != "" {
+		if k, err := strconv.Atoi(v); err == nil && k > 0 {
+			richStride = k
+		}
+	}
+	richBaseStride := 1
+	if v := os.Getenv("C14_RICH_BASE_STRIDE"); v != "" {
+		if k, err := strconv.Atoi(v); err == nil && k > 0 {
+			richBaseStride = k
+		}
+	}
 	limit := 20 * time.Second
 	if v := os.Getenv("C14_INPUT_TIMEOUT_MS"); v != "" {
 		ms, _ := strconv.Atoi(v)
@@ -714,7 +742,7 @@ func c14work(args []string) int {
 	}
 	var samples [][]byte
 	for _, rel := range exampleFiles(repo) {
-		raw, err := os.ReadFile(filepath.Join(repo, rel))
+		raw, err := c14ReadExample(repo, rel)
 		if err != nil {
 			continue
 		}
@@ -729,6 +757,18 @@ func c14work(args []string) int {
 			if kind == "original" {
 				n++
 				if n > skip && n%nshards == shard { // originals are never strided away
+					process(&c14input{n: n, doc: rel, path: path, kind: kind, data: mk()})
+				}
+				return
+			}
+			if strings.HasPrefix(rel, "rich:") {
+				// large synthetic documents: their mutations are sampled by their own stride
+				n++
+				rs := richBaseStride
+				if strings.Contains(rel, "+") {
+					rs = richStride // the per-addon variants of the invoice and the order
+				}
+				if n > skip && n%nshards == shard && (n/nshards)%rs == (offset+int(seed))%rs {
 					process(&c14input{n: n, doc: rel, path: path, kind: kind, data: mk()})
 				}
 				return
@@ -782,7 +822,7 @@ func c14get(args []string) int {
 	n := 0
 	var samples [][]byte
 	for _, rel := range exampleFiles(repo) {
-		raw, err := os.ReadFile(filepath.Join(repo, rel))
+		raw, err := c14ReadExample(repo, rel)
 		if err != nil {
 			continue
 		}
@@ -862,7 +902,7 @@ func c14count(args []string) int {
 	kinds := map[string]int{}
 	docs := 0
 	for _, rel := range exampleFiles(args[0]) {
-		raw, err := os.ReadFile(filepath.Join(args[0], rel))
+		raw, err := c14ReadExample(args[0], rel)
 		if err != nil {
 			continue
 		}
